@@ -181,6 +181,13 @@ def family_a_jobs(ck, quick):
                               "#ruledef\n{\n    nop => 0x00\n}\n#addr 0x3000_0000\nnop\n"]):
         jobs.append({"mode": "asm", "files": {"main.asm": text}, "std": True, "roots": ["main.asm"], "want": WANT})
         names.append("default-bank:%d" % k)
+    # a fault in an operand that travelled through an asm block (the rules at the very end of an included file,
+    # the operand longer than what follows the block there)
+    for k, operand in enumerate(["300", "3000000000000000000000000000000000000", "(1 + 2) * 1000000 ; " + MB[0], "nosuch_symbol_with_a_long_name"]):
+        jobs.append({"mode": "asm", "std": True, "roots": ["main.asm"], "want": WANT,
+                     "files": {"rules.asm": "#ruledef\n{\n    ld {x: u8} => 0x11 @ x\n    ldm {v} => asm { ld {v} }\n}",
+                               "main.asm": "#include \"rules.asm\"\n    ld 1\n    ldm %s\n" % operand}})
+        names.append("through-asm-block:%d" % k)
     small = [(n, j) for n, j in bases if len(j["files"][j["roots"][0]]) <= 1500]
     for k in range(6000 if quick else 120000):            # mutants, plain and decorated
         n, j = rng.choice(small if rng.random() < 0.9 else bases)
